@@ -21,7 +21,7 @@ CID = "C12"
 AREA = "rcache"
 VO = ["props/C12.vo", "rcache/PyList.vo", "rcache/RCacheModel.vo", "rcache/RCacheSpec.vo",
       "rcache/RQueryModel.vo", "rcache/RQuerySpec.vo", "rcache/RQueryThm.vo", "rcache/RCacheThm.vo",
-      "rcache/RCacheQuery.vo", "base/Cal.vo", "rr/RRBase.vo", "rr/RRNorm.vo", "rcache/RReplace.vo"]
+      "rcache/RCacheQuery.vo", "base/Cal.vo", "rr/RRBase.vo", "rr/RRNorm.vo", "rcache/RReplace.vo", "rcache/RReplaceThm.vo"]
 
 MODES = ["uncached", "uncached_mid", "cached_fresh", "cached_mid", "cached_shared", "cached_complete"]
 
@@ -349,7 +349,7 @@ def check_replace(r, tier, verdict, stats, o=None):
                                            "the extracted recording model",
                                    "input": {"mode": "replace", "base_kw": kw, "replace": {}, "source": source},
                                    "impl_original_rule": impl, "model_original_rule": model}, concrete=False)
-    st = RP.run_stream(tier, C.rng("C12-replace"), 20 if tier == "quick" else 300, on_case, on_rule)
+    st = RP.run_stream(tier, C.rng("C12-replace"), 20 if tier == "quick" else 240, on_case, on_rule)
     stats["record_cases"] = rec[0]
     stats["record_disagreements"] = rec[1]
     stats["replace_stream"] = st
@@ -552,6 +552,7 @@ def main():
     else:
         props = C.compile_props(CID)
 
+    t_built = time.time()
     r = C.rng("C12")
     stats = {"rules": 0, "queries": 0, "evaluations": 0, "impl_vs_listspec": 0, "impl_vs_model": 0,
              "coqspec_vs_listspec": 0, "model_vs_coqspec": 0, "rules_not_strictly_increasing": 0,
@@ -572,9 +573,9 @@ def main():
                     recs.append(json.loads(line)["recipe"])
         stats["regression_corpus_rules"] = len(recs)
         recs += recipes(tier, r)
-        limit = 50 if tier == "quick" else 800
+        limit = 50 if tier == "quick" else 700
         for recipe in recs:
-            if time.time() - t0 > limit:
+            if time.time() - t_built > limit:
                 stats["stopped_by_time_budget"] = True
                 break
             try:
@@ -648,7 +649,8 @@ def main():
         "replace_stream": stats.get("replace_stream"),
         "original_rule_dict_vs_recording_model_cases": stats.get("record_cases", 0),
         "original_rule_dict_vs_recording_model_disagreements": stats.get("record_disagreements", 0),
-        "only_differential_tested": ["replace() (constructor normalisation is C01's model)",
+        "only_differential_tested": ["replace() merging beyond the recording model (the recorded dictionary itself is "
+                                     "compared with the extracted model RReplace.record on every base rule)",
                                      "count() publication of _len by rrule._iter/rruleset._iter",
                                      "DST zones (aware rules use fixed-offset zones), non-int / non-slice subscripts"],
         "partial_theorems": [t for t in props["theorems"] if "partial" in t],
